@@ -127,7 +127,7 @@ pub fn gen_side(r: &mut Prng, p: &Prof) -> SidePlan {
     SidePlan { w: gen_wops(r, p), r: gen_rops(r, p), hold: r.chance(p.hold, 1000) }
 }
 pub fn gen_stream(r: &mut Prng, p: &Prof) -> StreamPlan {
-    StreamPlan { opener: r.below(2), port: r.next() as u16, pad: if r.chance(1, 8) { r.below(200) } else { r.below(8) }, delay: r.below(6), after: None, raw_host: None, sides: [gen_side(r, p), gen_side(r, p)] }
+    StreamPlan { opener: r.below(2), port: r.next() as u16, pad: if r.chance(1, 8) { r.below(200) } else { r.below(8) }, delay: r.below(6), after: None, after_abort: None, raw_host: None, sides: [gen_side(r, p), gen_side(r, p)] }
 }
 pub fn gen_dgtx(r: &mut Prng, from: usize, max_items: usize, min_len: usize) -> DgTx {
     let n = r.below(max_items + 1);
